@@ -108,6 +108,24 @@ CHECKS = {
                 "replacement moves the balance by the difference; refunds only at 100-confirmation completion. non-trivial = history with receipts and ledger checks.",
         "assumptions": E1_ASSUME,
     },
+    "C03": {
+        "engines": lambda tier: [{"engine": "e1c", "shards": 16, "args": {"cases": 40 if tier == "thorough" else 3, "max_points": 3000 if tier == "thorough" else 500}}],
+        "level": "fault_enumeration",
+        "rule": "fault space = for each history H (an E1 history of 12-40 steps that passed every sequential monitor; 1000 slots per registration so a lost request "
+                "cannot cascade): EVERY crash point hit inside an operation (before/after each durable write, before/after each explicit commit, before every node "
+                "RPC and every block-source call) plus the durable-write points and a sample of the download points of every bootstrap; and for every multi-block "
+                "poll a failed download of its 1st..4th block followed by a restart. Each fault = one full re-execution of H: the observer unwinds at the k-th point, "
+                "all tower objects are dropped (sqlite rolls back open transactions), the bootstrap of main.rs runs again on the same file, the request in flight is "
+                "re-issued (a registration only if it did not take effect), H continues. Oracle: restart succeeds with the same tower id; from the crash onwards the "
+                "database after EVERY operation equals the uninterrupted run's (users, appointments byte for byte, trackers with their transactions and confirmation, "
+                "last known block), except that the in-flight user's balance may be short by at most that request's cost and never higher; no dangling rows. "
+                "non-trivial = fault actually reached; distinct = distinct (history, fault).",
+        "assumptions": E1_ASSUME[:2] + [
+            "process death is simulated by unwinding and dropping every tower object in-process (no power-loss / torn-page semantics); the in-process bootstrap mirrors main.rs (the real binary is the e2e engine's business)",
+            "histories poll right after mining, so that the only undelivered blocks at a crash are those of the poll in flight",
+            "one fault per re-execution",
+        ],
+    },
     "C10": {
         "engines": lambda tier: [{"engine": "e2", "shards": 16, "args": {"schedules": 3000 if tier == "thorough" else 150, "free": 150 if tier == "thorough" else 10}}],
         "level": "exploration",
